@@ -20,6 +20,8 @@ SCENARIO = {
     '/stream': ('GET', 'full', True), '/pre': ('GET', 'full', True),
     # endpoints that already vary on something else (content negotiation, personalised pages)
     '/vary_accept': ('GET', 'full', True), '/vary_cookie': ('GET', 'full', True),
+    # a download the way werkzeug documents it: wrap_file + direct_passthrough (cannot be buffered)
+    '/download': ('GET', 'full', True),
 }
 
 
@@ -89,13 +91,19 @@ def build_app(mws):
         r.vary.add('Accept-Language')
         return r
 
+    def download(request):
+        import io
+        from werkzeug.wsgi import wrap_file
+        return Response(wrap_file(request.environ, io.BytesIO(body_for('random', 3000))), mimetype='application/octet-stream',
+                        direct_passthrough=True)
+
     inst = {'gzip': lambda: M.GzipMiddleware(), 'cache': lambda: M.HTTPCacheMiddleware(), 'stats': lambda: StatsMiddleware(),
             'profile': lambda: M.SimpleProfileMiddleware(), 'cookie': lambda: SignedCookieMiddleware(secret_key=b'k' * 20),
             'ctxproc': lambda: M.ContextProcessor(), 'getparam': lambda: M.GetParamMiddleware(['q']),
             'postdata': lambda: __import__('clastic.middleware.form', fromlist=['x']).PostDataMiddleware(['p']), 'scriptroot': lambda: __import__('clastic.middleware.url', fromlist=['x']).ScriptRootMiddleware()}
     routes = [('/ok', ok), ('/bin', binr), ('/empty', empty), ('/ctx', ctx, render_basic), ('/redir', redir),
               ('/raise404', raise404), ('/ret403', ret403), ('/ret503long', ret503long), ('/nb', nb), ('/boom', boom), ('/js', js),
-              ('/stream', stream), ('/pre', pre), ('/vary_accept', vary_accept), ('/vary_cookie', vary_cookie), POST('/postonly', ok), ('/size/<n:int>/<kind>', sized)]
+              ('/stream', stream), ('/pre', pre), ('/vary_accept', vary_accept), ('/vary_cookie', vary_cookie), ('/download', download), POST('/postonly', ok), ('/size/<n:int>/<kind>', sized)]
     return Application(routes, middlewares=[inst[m]() for m in mws])
 
 
@@ -211,7 +219,7 @@ def gen_case(rng, tier):
                                     rng.choice(['text', 'random']))
             method = 'GET'
         reqs.append({'path': path, 'method': method, 'ae': rng.choice(ACCEPT_ENCODINGS), 'ua': rng.choice(AGENTS),
-                     'query': rng.choice(['', 'q=1', 'x=y&q=z'])})
+                     'query': rng.choice(['', 'q=1', 'x=y&q=z', '_prof_sort=tottime', '_prof=&_prof_sort=calls', '_prof_sort='])})
     if 'stats' in mws:
         reqs = reqs + [dict(r) for r in reqs[:6]] + [dict(r) for r in reqs[:6]]      # the same route and status again and again
         return {'mws': mws, 'requests': reqs, 'small_stores': rng.random() < 0.7}
